@@ -62,9 +62,17 @@ fn esc(s: &str) -> String {
 }
 
 fn fail(text: &str, what: &str) {
-    FAILS.fetch_add(1, Ordering::SeqCst);
+    let n = FAILS.fetch_add(1, Ordering::SeqCst);
     let _g = OUT.lock();
-    println!("FAIL\t{}\t{}", what, esc(text));
+    // the exact failing text goes to a file (replayed with `fecheck one <file>`)
+    let mut file = String::new();
+    if n < 25 {
+        if let Ok(dir) = std::env::var("FECHECK_OUT") {
+            let p = format!("{}/fail_{}.llw", dir, n);
+            if std::fs::write(&p, text).is_ok() { file = p; }
+        }
+    }
+    println!("FAIL\t{}\t{}\t{}", what, file, esc(text));
 }
 
 fn run(text: &str) {
@@ -95,24 +103,32 @@ fn run(text: &str) {
     }
 }
 
-fn variants(seed: &str, thorough: bool) {
-    run(seed);
-    let lx = lexemes(seed);
+const CHUNK: usize = 48;
+
+/// variants of `seed` that edit the lexemes with index in [lo, hi)
+fn variants(seed: &str, thorough: bool, lo: usize, hi: usize) {
+    if lo == 0 { run(seed); }
+    let all = lexemes(seed);
+    let hi = hi.min(all.len());
+    if lo >= hi { return; }
+    let total = all.len();
+    let lx = &all[lo..hi];
+    let lx_len_for_policy = total;
     // prefixes: at every lexeme boundary and inside every lexeme (every char boundary for small seeds)
-    for &(a, b) in &lx {
+    for &(a, b) in lx {
         run(&seed[..a]);
-        if lx.len() <= 600 || thorough {
+        if lx_len_for_policy <= 600 || thorough {
             for k in a + 1..b { if seed.is_char_boundary(k) { run(&seed[..k]); } }
         }
     }
     // deletions
-    for &(a, b) in &lx {
+    for &(a, b) in lx {
         let mut t = String::with_capacity(seed.len());
         t.push_str(&seed[..a]); t.push_str(&seed[b..]);
         run(&t);
     }
-    let alpha: &[&str] = if lx.len() <= 150 { ALPHA } else if lx.len() <= 700 && thorough { SHORT } else if lx.len() <= 300 { SHORT } else { &[] };
-    for &(a, b) in &lx {
+    let alpha: &[&str] = if total <= 150 { ALPHA } else if total <= 700 && thorough { SHORT } else if total <= 300 { SHORT } else { &[] };
+    for &(a, b) in lx {
         if seed[a..b].trim().is_empty() && !thorough { continue; }
         for s in alpha {
             let mut t = String::with_capacity(seed.len() + 8);
@@ -123,8 +139,8 @@ fn variants(seed: &str, thorough: bool) {
             run(&t);
         }
     }
-    if thorough && lx.len() <= 700 {
-        for w in lx.windows(2) {
+    if thorough && total <= 700 {
+        for w in all[lo..(hi + 1).min(total)].windows(2) {
             let ((a, b), (c, d)) = (w[0], w[1]);
             let t = format!("{}{}{}{}", &seed[..a], &seed[c..d], &seed[a..b], &seed[d..]);
             run(&t);
@@ -160,6 +176,12 @@ fn main() {
     if args.len() < 2 { eprintln!("usage: fecheck <quick|thorough> <seed.llw>..."); std::process::exit(2); }
     let thorough = args[1] == "thorough";
     std::panic::set_hook(Box::new(|_| {}));
+    if args[1] == "one" {
+        // replay: exactly the texts in the given files
+        for p in &args[2..] { if let Ok(t) = std::fs::read_to_string(p) { run(&t); } }
+        println!("DONE\t{}\t{}", RUNS.load(Ordering::SeqCst), FAILS.load(Ordering::SeqCst));
+        return;
+    }
     // watchdog: no progress for 10 s = a hang
     std::thread::spawn(|| {
         let mut last = 0u64; let mut same = 0;
@@ -175,17 +197,26 @@ fn main() {
         }
     });
     let seeds: Vec<String> = args[2..].iter().filter_map(|p| std::fs::read_to_string(p).ok()).collect();
+    // work items: (seed, chunk of lexemes); the last item is the exhaustive short-sequence family
+    let mut items: Vec<(usize, usize)> = vec![];
+    for (i, s) in seeds.iter().enumerate() {
+        let n = lexemes(s).len().max(1);
+        let mut lo = 0;
+        while lo < n { items.push((i, lo)); lo += CHUNK; }
+    }
     let next = std::sync::Arc::new(AtomicU64::new(0));
     let seeds = std::sync::Arc::new(seeds);
+    let items = std::sync::Arc::new(items);
     let mut hs = vec![];
     let nthreads = std::thread::available_parallelism().map(|n| n.get()).unwrap_or(4).min(16);
     for _ in 0..nthreads {
-        let (next, seeds) = (next.clone(), seeds.clone());
+        let (next, seeds, items) = (next.clone(), seeds.clone(), items.clone());
         hs.push(std::thread::Builder::new().stack_size(256 << 20).spawn(move || loop {
             let i = next.fetch_add(1, Ordering::SeqCst) as usize;
-            if i == seeds.len() { short_sequences(if thorough { 4 } else { 3 }); }
-            if i >= seeds.len() { break; }
-            variants(&seeds[i], thorough);
+            if i == items.len() { short_sequences(if thorough { 4 } else { 3 }); }
+            if i >= items.len() { break; }
+            let (si, lo) = items[i];
+            variants(&seeds[si], thorough, lo, lo + CHUNK);
         }).unwrap());
     }
     for h in hs { let _ = h.join(); }
